@@ -451,6 +451,12 @@ var c03Aliasing = []string{
 	"%multis.intersect(%fprims)", "%fprims.intersect(%fprims.skip(1))", "%fprims.intersect($this)", "%fprims.exclude(%fprims.take(2))", "%fprims.distinct()", "%fprims.select($this & 'x')", "%fprims.where($this = 'a')", "%fprims = %fprims",
 	"%tcoll.not()", "%fcoll.not()", "%tcoll.not() or %tcoll", "%multib.take(1).not()", "%multib.tail().not()", "%fprims.tail().take(1).toString()", "%fprims.first().toInteger()", "%fprims.skip(2).first() + 1", "-(%fprims.skip(2).first())",
 	"%kids.as(Patient)", "%kids.first() as Element", "%kids.first() is Element", "%r is DomainResource", "%r as Resource",
+	// every element through the type operators and functions (a conversion between related types must not write through shared children)
+	"%r.descendants().select($this as Quantity)", "%r.descendants().select($this as Duration)", "%r.descendants().select($this as Age)", "%r.descendants().ofType(Quantity)", "%r.descendants().where($this is Quantity).count()",
+	"%r.descendants().select($this as SimpleQuantity)", "%r.descendants().select($this as Money)", "%r.descendants().select($this as string)", "%r.descendants().select($this as uri)", "%r.descendants().select($this as code)",
+	"%r.descendants().select($this as Coding)", "%r.descendants().select($this as Reference)", "%r.descendants().select($this as Element).count()", "%r.descendants().select($this as dateTime)", "%r.descendants().ofType(Duration).toString()",
+	"%r.descendants().select($this as Quantity).toString()", "%r.descendants().select(($this as Quantity) = $this)", "%r.descendants().where($this is Quantity).select($this.toQuantity())", "%r.descendants().where($this is Quantity).select($this = $this)",
+	"%r.descendants().where($this is Quantity).select($this + $this)", "%r.descendants().where($this is Quantity).select($this < $this)", "%r.descendants().toQuantity()", "%r.descendants().select(toString())",
 }
 
 func runC03(env *core.Env) {
